@@ -57,3 +57,31 @@ Proof. vm_compute. reflexivity. Qed.
 Example c06_submodel_after_fix :
   map ores (sim_exec (c06_bench false) 300 [] [(CProcEvent 1 0 5, [])]) = [ROk; RDeadlock [([Some 0; Some 1], 1)]].
 Proof. vm_compute. reflexivity. Qed.
+
+(* ---- the message count read by the multi-threaded executor (Model/Pool.v) ----
+   For the barrier program GENERATED from the current executor/mt_executor.rs: every value of msg_count
+   that Executor::run reads when it finds the pool idle equals the number of messages sent minus the
+   number of messages received by all the tasks run so far, for every pool size, interleaving and task
+   behaviour: no spurious and no missed "unprocessed messages" verdict comes from the hand-off between
+   the workers going idle and the main thread. *)
+Require Import NX.Model.Pool NX.gen.PoolProg NX.Proofs.PoolProofs NX.Proofs.PoolGen.
+
+Theorem c06_pool_count_read_is_exact :
+  forall n ls, 1 <= n ->
+    let s := p_run barrier_gen (p_init n) ls in
+    pmain s = MRead -> pmsg s = pnet s.
+Proof. intros n ls Hn s H. exact (proj1 (pool_gen_idle_read_exact n ls Hn H)). Qed.
+Print Assumptions c06_pool_count_read_is_exact.
+
+Theorem c06_pool_every_count_read_was_exact :
+  forall n ls m k, 1 <= n -> In (m, k) (preads (p_run barrier_gen (p_init n) ls)) -> m = k.
+Proof. exact pool_gen_every_read_exact. Qed.
+Print Assumptions c06_pool_every_count_read_was_exact.
+
+(* F5: with the barrier of the pinned tree (count folded AFTER the worker cleared its bit) the main thread
+   reads -1 although every message sent was received: the executor then panics on the conversion of the
+   count (or, with the roles of the two workers exchanged, reports one unprocessed message) *)
+Example c06_pool_count_refuted_on_pinned_tree :
+  let s := p_run barrier_pinned (p_init 2) sched_pinned in
+  pmain s = MRead /\ pmsg s = (-1)%Z /\ pnet s = 0%Z /\ Pool.quiescent s.
+Proof. exact pool_pinned_refuted. Qed.
